@@ -50,7 +50,7 @@ man = {
     }],
     "checks": checks,
     "not_applicable": na,
-    "notes": "All claims are at level 'other': each check decides structural necessary conditions of its property (see DESIGN.md §4/§5), never the behavioural property as a whole. Exit 0 = all obligations discharged or listed in known_findings.json; 1 = VIOLATION; 2 = UNDECIDED (anchor lost / canary mutant survived).",
+    "notes": "All claims are at level 'other': each check decides structural necessary conditions of its property (see DESIGN.md §4/§5), never the behavioural property as a whole. Exit 0 = all obligations discharged or listed in known_findings.json; 1 = VIOLATION; 2 = UNDECIDED (anchor lost / canary mutant survived). No hooks were added to /repo; the only changes there are unguarded `fix:` commits, one per repaired defect, each listed as a `fixed:` entry of known_findings.json with its demonstration under /verif/repro (DESIGN.md §13). One defect (D35, seven Socket methods) is recorded as a known finding instead of repaired.",
 }
 json.dump(man, open(os.path.join(V, 'MANIFEST.json'), 'w'), indent=1)
 try:
